@@ -55,7 +55,9 @@ AWKWARD_COLS = ['select', 'from', 'order', 'group by', 'a b', 'é', '中', 'Mixe
                 'columns', 'fields', 'cache', 'rows', 'types', 'name',
                 'count', 'nulls', 'table',
                 # distinct for SQLite, equal under Python's lower()
-                'É', 'Ünit', 'ünit']
+                'É', 'Ünit', 'ünit',
+                # a leading '#' marks a comment only among constraint kinds
+                '#', '#lines', '# of rows']
 
 
 def text_values():
@@ -202,6 +204,8 @@ def perturbation(col, kind, cvalue, fc, vals):
         if k == 'int64':
             return (m > -2**63, m - 1)
         if k == 'float64':
+            if len(nn) % 3 == 0:
+                return (True, -math.inf)     # (SQLite stores infinities)
             v = m - 1.0 if abs(m) < 1e15 else math.nextafter(m, -math.inf)
             return (v < m and not math.isinf(v), v)
         if k == 'boolean':
@@ -217,6 +221,8 @@ def perturbation(col, kind, cvalue, fc, vals):
         if k == 'int64':
             return (m < 2**63 - 1, m + 1)
         if k == 'float64':
+            if len(nn) % 3 == 0:
+                return (True, math.inf)
             v = m + 1.0 if abs(m) < 1e15 else math.nextafter(m, math.inf)
             return (v > m and not math.isinf(v), v)
         if k == 'boolean':
@@ -255,7 +261,7 @@ def perturbation(col, kind, cvalue, fc, vals):
         if bad is None:
             return (False, None)
         if k == 'float64':
-            bad = float(bad)
+            bad = float(bad) * (math.inf if len(nn) % 3 == 1 else 1.0)
         if k == 'boolean':
             return (False, None)
         return (True, bad)
